@@ -256,6 +256,54 @@ pub struct Found {
     pub v: Violation,
 }
 
+// ---- real-time watchdog: a run that never returns (a loop inside one poll that touches no
+// simulated I/O cannot be unwound by the kernel watchdog) is reported instead of hanging the check
+struct Slot {
+    started: Option<std::time::Instant>,
+    what: String,
+}
+static SLOTS: Mutex<Vec<Slot>> = Mutex::new(Vec::new());
+static WATCHDOG: std::sync::Once = std::sync::Once::new();
+
+fn slot_begin(what: String) -> usize {
+    let mut g = SLOTS.lock().unwrap();
+    let idx = g.iter().position(|s| s.started.is_none()).unwrap_or_else(|| {
+        g.push(Slot { started: None, what: String::new() });
+        g.len() - 1
+    });
+    g[idx] = Slot { started: Some(std::time::Instant::now()), what };
+    idx
+}
+
+fn slot_end(idx: usize) {
+    let mut g = SLOTS.lock().unwrap();
+    g[idx].started = None;
+}
+
+fn start_watchdog(prop: &'static str) {
+    WATCHDOG.call_once(|| {
+        std::thread::spawn(move || loop {
+            std::thread::sleep(std::time::Duration::from_secs(5));
+            let limit: u64 = std::env::var("VERIF_RUN_WALL_LIMIT_S").ok().and_then(|s| s.parse().ok()).unwrap_or(180);
+            let g = SLOTS.lock().unwrap();
+            for s in g.iter() {
+                if let Some(t) = s.started {
+                    if t.elapsed().as_secs() > limit {
+                        let dir = format!("{}/replays", verif_root());
+                        let _ = std::fs::create_dir_all(&dir);
+                        let path = format!("{}/{}-hang.json", dir, prop);
+                        let doc: Value = serde_json::from_str(&s.what).unwrap_or(json!({}));
+                        let _ = std::fs::write(&path, serde_json::to_string_pretty(&doc).unwrap());
+                        out_line(&format!("VIOLATION property={} replay={}", prop, path));
+                        out_line(&format!("  rule=run_does_not_terminate a simulated run did not return within {} s of real time (a task loops without yielding and without touching simulated I/O): {}", limit, s.what));
+                        std::process::exit(1);
+                    }
+                }
+            }
+        });
+    });
+}
+
 pub fn threads() -> usize {
     std::env::var("VERIF_THREADS")
         .ok()
@@ -288,7 +336,11 @@ fn run_batch(prop: &'static str, bi: usize, batch: &Batch, seed: u64) -> Result<
                     if i >= batch.runs {
                         break;
                     }
+                    let slot = slot_begin(
+                        json!({"property": prop, "scenario": batch.name, "batch_index": bi, "seed": seed, "run_index": i, "rule": "run_does_not_terminate", "tape": null, "hang": true}).to_string(),
+                    );
                     let rec = run_one(batch, Tape::generate(seed ^ stream, i), false);
+                    slot_end(slot);
                     if let Some(msg) = &rec.harness_panic {
                         stop.store(true, Ordering::SeqCst);
                         let mut h = harness_err.lock().unwrap();
@@ -464,6 +516,30 @@ fn write_replay(check: &Check, f: &Found, seed: u64, tier: &str) -> Result<(Stri
     Ok((path, v))
 }
 
+/// event-log hashes of runs `from..to` of one batch, one per line (for the cross-process
+/// determinism self-test)
+pub fn hashes(check: &Check, bi: usize, from: u64, to: u64, seed: u64) -> Vec<(u64, u64, Vec<u8>)> {
+    let batch = &check.batches[bi];
+    let next = AtomicU64::new(from);
+    let res: Mutex<Vec<(u64, u64, Vec<u8>)>> = Mutex::new(Vec::new());
+    let stream = stream_id(check.prop, bi);
+    std::thread::scope(|s| {
+        for _ in 0..threads() {
+            s.spawn(|| loop {
+                let i = next.fetch_add(1, Ordering::SeqCst);
+                if i >= to {
+                    break;
+                }
+                let rec = run_one(batch, Tape::generate(seed ^ stream, i), false);
+                res.lock().unwrap().push((i, rec.hash, rec.out.observable));
+            });
+        }
+    });
+    let mut v = res.into_inner().unwrap();
+    v.sort_by_key(|x| x.0);
+    v
+}
+
 pub fn run_single(check: &Check, bi: usize, run: u64, seed: u64) -> i32 {
     let batch = &check.batches[bi];
     let rec = run_one(batch, Tape::generate(seed ^ stream_id(check.prop, bi), run), true);
@@ -483,6 +559,7 @@ pub fn out_line(s: &str) {
 }
 
 pub fn run_check(check: &Check, tier: &str, seed: u64) -> i32 {
+    start_watchdog(check.prop);
     let t0 = std::time::Instant::now();
     let mut agg = Agg::default();
     let mut per_batch = Vec::new();
@@ -665,7 +742,17 @@ pub fn replay_file(path: &str, checks: &dyn Fn(&str, &str) -> Option<Check>) -> 
             }
         },
     };
-    let rec = run_one(batch, Tape::replay(tape), true);
+    let rec = if doc["hang"].as_bool() == Some(true) {
+        start_watchdog(check.prop);
+        let seed = doc["seed"].as_u64().unwrap_or(1);
+        let run = doc["run_index"].as_u64().unwrap_or(0);
+        let slot = slot_begin(text.clone());
+        let r = run_one(batch, Tape::generate(seed ^ stream_id(check.prop, bi), run), true);
+        slot_end(slot);
+        r
+    } else {
+        run_one(batch, Tape::replay(tape), true)
+    };
     let got_hash = format!("{:016x}", rec.hash);
     for l in rec.trace.iter().take(400) {
         out_line(l);
